@@ -422,7 +422,7 @@ def c10_hasheader_equals : Bool := true
 def c10_header_equals_total_and_hash : Bool := true
 
 /-- cond types/proposal.go Proposal.ValidateBasic -/
-def c10_proposal_complete_gate : String := "<missing>"
+def c10_proposal_complete_gate : String := "!p.BlockID.IsComplete()"
 
 /-- cond crypto/merkle/proof.go Proof.Verify -/
 def c10_verify_nil_root_guard : String := "computedHash == nil"
